@@ -243,7 +243,8 @@ def _ceil(interp, x):
 _ceil._needs_interp = True
 MATH.ceil = staticmethod(_ceil)
 
-BUILTINS = {"sum": _sum, "sorted": _ident_coll, "oset": _ident_coll, "set": lambda *a: (a[0] if a else GList()), "tuple": _ident_coll, "list": _ident_coll,
+BUILTINS = {"sum": _sum, "sorted": _ident_coll, "oset": lambda *a, **k: _dedup(*a, **k), "set": lambda *a, **k: _dedup(*a, **k), "tuple": _ident_coll, "list": _ident_coll,
+            "any": lambda x: _any(x), "all": lambda x: _all(x), "comb": lambda *a: _comb(*a), "prod": lambda *a: _prod(*a),
             "ceil": _ceil, "abs": _abs, "min": _minmax("min"), "max": _minmax("max"), "len": lambda x: x.shape[0] if isinstance(x, SArr) else len(x),
             "int": lambda x: x, "float": lambda x: x, "bool": lambda x: x, "True": True, "False": False}
 
@@ -262,6 +263,100 @@ class GList:
     def member(self, x):
         alts = [z3.And(zbool(g), (v == x) if (is_sym(v) or is_sym(x)) else z3.BoolVal(v == x)) for g, v in self.items]
         return z3.Or(alts) if alts else z3.BoolVal(False)
+
+
+    def count(self, x):
+        return z3.Sum([z3.If(z3.And(zbool(g), (v == x) if (is_sym(v) or is_sym(x)) else z3.BoolVal(v == x)), 1, 0) for g, v in self.items]) if self.items else 0
+
+    def dedup(self):
+        """set()/oset() semantics: element k survives iff no earlier present element equals it."""
+        out = []
+        for k, (g, v) in enumerate(self.items):
+            earlier = [z3.And(zbool(g2), (v2 == v) if (is_sym(v) or is_sym(v2)) else z3.BoolVal(v2 == v)) for g2, v2 in self.items[:k]]
+            out.append((z3.simplify(z3.And(zbool(g), z3.Not(z3.Or(earlier)))) if earlier else g, v))
+        return GList(out)
+
+
+def _dedup(x=None, *a, **k):
+    if x is None:
+        return GList()
+    if isinstance(x, GList):
+        return x.dedup()
+    return x
+
+
+def _any(x):
+    if isinstance(x, GList):
+        return z3.Or([z3.And(zbool(g), zbool(v)) for g, v in x.items]) if x.items else False
+    x = list(x)
+    if any(is_sym(v) for v in x):
+        return z3.Or([zbool(v) for v in x])
+    return any(x)
+
+
+def _all(x):
+    if isinstance(x, GList):
+        return z3.And([z3.Implies(zbool(g), zbool(v)) for g, v in x.items]) if x.items else True
+    x = list(x)
+    if any(is_sym(v) for v in x):
+        return z3.And([zbool(v) for v in x])
+    return all(x)
+
+
+def _prod(x, start=1):
+    if isinstance(x, GList):
+        r = start
+        for g, v in x.items:
+            r = r * (z3.If(zbool(g), v if is_sym(v) else z3.IntVal(v), 1) if (is_sym(g) or is_sym(v)) else (v if g else 1))
+        return r
+    r = start
+    for v in x:
+        r = r * v
+    return r
+
+
+POW2_MAX = 40
+
+
+def _pow2(b):
+    """2**b for a symbolic non-negative exponent: ite table over 0..POW2_MAX (exponents beyond
+    are out of the encoded range: the last entry is returned, callers bound their integers)."""
+    if not is_sym(b):
+        return 2 ** b
+    r = z3.IntVal(2 ** POW2_MAX)
+    for k in range(POW2_MAX - 1, -1, -1):
+        r = z3.If(b <= k, z3.IntVal(2 ** k), r)
+    return r
+
+
+def _bit_length(v):
+    def f():
+        a = z3.If(v >= 0, v, -v)
+        return z3.Sum([z3.If(a >= 2 ** k, 1, 0) for k in range(POW2_MAX)])
+    return f
+
+
+def _comb(a, b):
+    import math as _m
+    if not is_sym(a) and not is_sym(b):
+        return _m.comb(a, b)
+    if is_sym(b):
+        raise Unsupported("comb with symbolic k")
+    # ite table over the bounded first argument (linear for the solver); beyond it the polynomial
+    top = POW2_MAX + b + 2
+    poly = z3.IntVal(1)
+    for j in range(b):
+        poly = poly * (a - j)
+    r = z3.If(a < 0, 0, poly / _m.factorial(b))
+    for x in range(top, -1, -1):
+        r = z3.If(a == x, _m.comb(x, b), r)
+    return r
+
+
+
+
+MATH.prod = staticmethod(_prod)
+MATH.comb = staticmethod(_comb)
 
 
 class Quot:
@@ -328,6 +423,10 @@ class Interp:
             return v.shape
         if isinstance(v, SArr) and n.attr == "dtype":
             return v.dtype or "real"
+        if is_sym(v) and n.attr == "bit_length" and z3.is_int(v):
+            return _bit_length(v)
+        if isinstance(v, int) and not isinstance(v, bool) and n.attr == "bit_length":
+            return v.bit_length
         return getattr(v, n.attr)
     def ev_Tuple(self, n, env):
         return tuple(self.ev(e, env) for e in n.elts)
@@ -356,9 +455,16 @@ class Interp:
         if op == "Mod":
             return a % b
         if op == "RShift":
-            return a / (2 ** b) if is_sym(a) else a >> b     # z3 Int '/' is floor div for non-negatives
+            return a / _pow2(b) if (is_sym(a) or is_sym(b)) else a >> b     # z3 Int '/' is floor div for non-negatives
         if op == "LShift":
-            return a * (2 ** b)
+            return a * _pow2(b)
+        if op == "Pow" and not is_sym(a) and a == 2 and is_sym(b):
+            return _pow2(b)
+        if op == "Pow" and isinstance(b, int) and 0 <= b <= 6:
+            r = 1
+            for _ in range(b):
+                r = r * a
+            return r
         raise Unsupported(op)
     def ev_UnaryOp(self, n, env):
         v = self.ev(n.operand, env)
@@ -452,6 +558,14 @@ class Interp:
         if isinstance(n.func, ast.Name) and n.func.id in self.functions:
             args = [self.ev(a, env) for a in n.args]
             return self.call_function(self.functions[n.func.id], args)
+        if isinstance(n.func, ast.Name) and n.func.id not in env and n.func.id not in self.globs and n.func.id not in BUILTINS:
+            # a helper defined in the module under analysis: interpret its current source too
+            import types as _types
+            cand = (getattr(self, "module_globals", None) or {}).get(n.func.id)
+            tgt = getattr(cand, "__wrapped__", getattr(cand, "py_func", cand))
+            if isinstance(tgt, _types.FunctionType) and (tgt.__module__ or "").startswith("accelforge"):
+                args = [self.ev(a, env) for a in n.args]
+                return self.call_function(cand, args)
         f = self.ev(n.func, env)
         args = [self.ev(a, env) for a in n.args]
         kw = {k.arg: self.ev(k.value, env) for k in n.keywords}
@@ -551,7 +665,9 @@ class Interp:
                 c2, r2 = fp_promote(cur, rhs)
                 new = z3.fpAdd(RNE, c2, r2) if op == "Add" else z3.fpSub(RNE, c2, r2) if op == "Sub" else None
             else:
-                new = cur + rhs if op == "Add" else cur - rhs if op == "Sub" else None
+                new = (cur + rhs if op == "Add" else cur - rhs if op == "Sub" else cur * rhs if op == "Mult" else
+                       cur % rhs if op == "Mod" else
+                       ((cur // rhs) if not (is_sym(cur) or is_sym(rhs)) else cur / rhs) if op == "FloorDiv" else None)
             if new is None:
                 raise Unsupported("augassign " + op)
             self.assign(s.target, new, env, guard)
@@ -570,7 +686,17 @@ class Interp:
             return
         if t == "For":
             it = self.ev(s.iter, env)
-            assert isinstance(it, tuple) and it[0] == "range", "only range loops"
+            if isinstance(it, GList) or (isinstance(it, (list, tuple)) and not (it and it[0] == "range")):
+                seq = it.items if isinstance(it, GList) else [(True, v) for v in it]
+                lp = {"brk": False, "cont": False}
+                for g0, v in seq:
+                    g = z3.simplify(z3.And(zbool(guard), zbool(g0), z3.Not(zbool(lp["brk"])), z3.Not(zbool(fr["ret"]))))
+                    if not self.feasible(g):
+                        continue
+                    lp["cont"] = False
+                    self.assign(s.target, v, env, True)
+                    self.block(s.body, env, g, fr, lp)
+                return
             lo, hi = it[1], it[2]
             lp = {"brk": False, "cont": False}
             i = lo if not is_sym(lo) else 0
@@ -598,7 +724,7 @@ class Interp:
                 lp["cont"] = False
                 self.block(s.body, env, z3.simplify(g), fr, lp)
                 k += 1
-                if k > 64:
+                if k > max(64, 2 * self.unwind_cap):
                     raise Unsupported("unwinding bound exceeded")
             return
         if t == "Break":
